@@ -248,3 +248,86 @@ package terminal
 //@   ensures  [node] n != nil ==> n.Pos() == pos && n.ReaderPos() >= pos + 2
 //@   ensures  [fail] err != nil ==> err.Pos() >= pos
 //@   ghost_return when err != nil && err.Pos() > parsley.GhostMaxFail :: parsley.GhostMaxFail = err.Pos()
+
+//@ -- ------------------------------------------------------------------ SetReaderPos of the literal nodes
+//@ -- the node's own end position is replaced by the callback's answer for it; nothing else changes (C07, C10)
+//@ func (b *BoolNode) SetReaderPos(fun func(parsley.Pos) parsley.Pos)
+//@   props C07,C10
+//@   logs ast.rpcallback
+//@   requires b != nil && fun != nil && cloinv(fun) && parsley.GhostLo <= b.readerPos && b.readerPos <= parsley.GhostHi
+//@   ensures  [once;C10] ncalls() == 1 && callarg[parsley.Pos](1, 0) == old(b.readerPos) && b.readerPos == callres[parsley.Pos](1, 0)
+//@   ensures  [moved;C10] old(b.readerPos) <= b.readerPos && b.readerPos <= parsley.GhostHi && cloinv(fun)
+//@   ensures  [others] ast.OthersKept()
+//@   assigns  b.readerPos, captures(fun)
+//@ callee fun(pos parsley.Pos) (np parsley.Pos)
+//@   include ast.rpcallback
+//@ func (c *CharNode) SetReaderPos(fun func(parsley.Pos) parsley.Pos)
+//@   props C07,C10
+//@   logs ast.rpcallback
+//@   requires c != nil && fun != nil && cloinv(fun) && parsley.GhostLo <= c.readerPos && c.readerPos <= parsley.GhostHi
+//@   ensures  [once;C10] ncalls() == 1 && callarg[parsley.Pos](1, 0) == old(c.readerPos) && c.readerPos == callres[parsley.Pos](1, 0)
+//@   ensures  [moved;C10] old(c.readerPos) <= c.readerPos && c.readerPos <= parsley.GhostHi && cloinv(fun)
+//@   ensures  [others] ast.OthersKept()
+//@   assigns  c.readerPos, captures(fun)
+//@ callee fun(pos parsley.Pos) (np parsley.Pos)
+//@   include ast.rpcallback
+//@ func (f *FloatNode) SetReaderPos(fun func(parsley.Pos) parsley.Pos)
+//@   props C07,C10
+//@   logs ast.rpcallback
+//@   requires f != nil && fun != nil && cloinv(fun) && parsley.GhostLo <= f.readerPos && f.readerPos <= parsley.GhostHi
+//@   ensures  [once;C10] ncalls() == 1 && callarg[parsley.Pos](1, 0) == old(f.readerPos) && f.readerPos == callres[parsley.Pos](1, 0)
+//@   ensures  [moved;C10] old(f.readerPos) <= f.readerPos && f.readerPos <= parsley.GhostHi && cloinv(fun)
+//@   ensures  [others] ast.OthersKept()
+//@   assigns  f.readerPos, captures(fun)
+//@ callee fun(pos parsley.Pos) (np parsley.Pos)
+//@   include ast.rpcallback
+//@ func (i *IntegerNode) SetReaderPos(fun func(parsley.Pos) parsley.Pos)
+//@   props C07,C10
+//@   logs ast.rpcallback
+//@   requires i != nil && fun != nil && cloinv(fun) && parsley.GhostLo <= i.readerPos && i.readerPos <= parsley.GhostHi
+//@   ensures  [once;C10] ncalls() == 1 && callarg[parsley.Pos](1, 0) == old(i.readerPos) && i.readerPos == callres[parsley.Pos](1, 0)
+//@   ensures  [moved;C10] old(i.readerPos) <= i.readerPos && i.readerPos <= parsley.GhostHi && cloinv(fun)
+//@   ensures  [others] ast.OthersKept()
+//@   assigns  i.readerPos, captures(fun)
+//@ callee fun(pos parsley.Pos) (np parsley.Pos)
+//@   include ast.rpcallback
+//@ func (n *NilNode) SetReaderPos(fun func(parsley.Pos) parsley.Pos)
+//@   props C07,C10
+//@   logs ast.rpcallback
+//@   requires n != nil && fun != nil && cloinv(fun) && parsley.GhostLo <= n.readerPos && n.readerPos <= parsley.GhostHi
+//@   ensures  [once;C10] ncalls() == 1 && callarg[parsley.Pos](1, 0) == old(n.readerPos) && n.readerPos == callres[parsley.Pos](1, 0)
+//@   ensures  [moved;C10] old(n.readerPos) <= n.readerPos && n.readerPos <= parsley.GhostHi && cloinv(fun)
+//@   ensures  [others] ast.OthersKept()
+//@   assigns  n.readerPos, captures(fun)
+//@ callee fun(pos parsley.Pos) (np parsley.Pos)
+//@   include ast.rpcallback
+//@ func (o *OpNode) SetReaderPos(fun func(parsley.Pos) parsley.Pos)
+//@   props C07,C10
+//@   logs ast.rpcallback
+//@   requires o != nil && fun != nil && cloinv(fun) && parsley.GhostLo <= o.readerPos && o.readerPos <= parsley.GhostHi
+//@   ensures  [once;C10] ncalls() == 1 && callarg[parsley.Pos](1, 0) == old(o.readerPos) && o.readerPos == callres[parsley.Pos](1, 0)
+//@   ensures  [moved;C10] old(o.readerPos) <= o.readerPos && o.readerPos <= parsley.GhostHi && cloinv(fun)
+//@   ensures  [others] ast.OthersKept()
+//@   assigns  o.readerPos, captures(fun)
+//@ callee fun(pos parsley.Pos) (np parsley.Pos)
+//@   include ast.rpcallback
+//@ func (s *StringNode) SetReaderPos(fun func(parsley.Pos) parsley.Pos)
+//@   props C07,C10
+//@   logs ast.rpcallback
+//@   requires s != nil && fun != nil && cloinv(fun) && parsley.GhostLo <= s.readerPos && s.readerPos <= parsley.GhostHi
+//@   ensures  [once;C10] ncalls() == 1 && callarg[parsley.Pos](1, 0) == old(s.readerPos) && s.readerPos == callres[parsley.Pos](1, 0)
+//@   ensures  [moved;C10] old(s.readerPos) <= s.readerPos && s.readerPos <= parsley.GhostHi && cloinv(fun)
+//@   ensures  [others] ast.OthersKept()
+//@   assigns  s.readerPos, captures(fun)
+//@ callee fun(pos parsley.Pos) (np parsley.Pos)
+//@   include ast.rpcallback
+//@ func (t *TimeDurationNode) SetReaderPos(fun func(parsley.Pos) parsley.Pos)
+//@   props C07,C10
+//@   logs ast.rpcallback
+//@   requires t != nil && fun != nil && cloinv(fun) && parsley.GhostLo <= t.readerPos && t.readerPos <= parsley.GhostHi
+//@   ensures  [once;C10] ncalls() == 1 && callarg[parsley.Pos](1, 0) == old(t.readerPos) && t.readerPos == callres[parsley.Pos](1, 0)
+//@   ensures  [moved;C10] old(t.readerPos) <= t.readerPos && t.readerPos <= parsley.GhostHi && cloinv(fun)
+//@   ensures  [others] ast.OthersKept()
+//@   assigns  t.readerPos, captures(fun)
+//@ callee fun(pos parsley.Pos) (np parsley.Pos)
+//@   include ast.rpcallback
